@@ -200,7 +200,7 @@ def ff_rule(repo, res, rule="FF"):
         return f, out
 
     f, sites = arg_provs("parse::Shell::from_str", "UnknownShell")
-    ok = bool(sites) and all(a[0][0] == "param" and a[0][2] == "span" for a in sites)
+    ok = bool(sites) and all(a[0][0] == "param" and isinstance(a[0][1], int) and "HumanSpan" in (f.params[a[0][1]].get("ty") or "") for a in sites)
     res.check(ok, rule, f"{rule}:UnknownShell", "UnknownShell(span parameter)", f.loc() if f else "")
     f = repo.fn("parse::Grammar::get_specializations")
     if f is not None:
@@ -297,13 +297,16 @@ def _shell_span(fn, envs):
     for c in calls:
         st_txt = c
     # shell_span = from_range(before_shell, input) with before_shell taken right after '@' and input right after the shell name
-    shell = None
-    for n in A.walk(fn.body):
-        if n["k"] == "Local" and n["pat"]["k"] == "PIdent" and n["pat"]["name"] == "shell_span":
-            shell = n
-    if shell is None:
-        return False, "no `shell_span` binding"
-    p = A.resolve(shell["init"], envs.get(id(shell["init"])))
+    # the shell's span is the last component of the parser's value `Ok((rest, (name, name_span, shell, shell_span)))`, whatever the locals are called
+    v = P.peel(A.resolve(fn.body, A.fn_env(fn)))
+    alts = v[1] if v[0] == "alt" else (v,)
+    p = None
+    for a in alts:
+        a = P.peel(a)
+        if a[0] == "call" and P.last(a[1]) == "Ok" and a[2] and a[2][0][0] == "tuple" and len(a[2][0][1]) == 2 and a[2][0][1][1][0] == "tuple" and len(a[2][0][1][1][1]) == 4:
+            p = P.peel(a[2][0][1][1][1][3])
+    if p is None:
+        return False, "the parser's value is not Ok((rest, (name, span, shell, shell span)))"
     if not (p[0] == "call" and p[1].endswith("from_range")):
         return False, A.show(p)
     a, b = p[2]
